@@ -245,4 +245,21 @@ theorem generateKeys_eq_spec (h : Bytes → Bytes) (seed : Bytes) (hl : Nat) (hp
   obtain ⟨s1, s2, s3⟩ := slices_of_take (genLoop h seed (a + b + c) (a + b + c) [] (h seed)) a b c
   simp only [generateKeys, Spec.derive, ← genLoop_take h seed hl hpos hh (a + b + c), ← s1, ← s2, ← s3]
 
+/-- P_hash truncated to `n` bytes has `n` bytes (for a keyed hash with a fixed non-zero output length) -/
+theorem pSha_length (h : Bytes → Bytes) (seed : Bytes) (hl : Nat) (hpos : 0 < hl)
+    (hh : ∀ m, (h m).length = hl) (n : Nat) : (Spec.pSha h seed n).length = n := by
+  simp only [Spec.pSha, List.length_take, stream_length h seed hl hh]
+  have : n ≤ n * hl := Nat.le_mul_of_pos_right _ hpos
+  omega
+
+/-- the derived keys have exactly the requested lengths -/
+theorem generateKeys_lengths (h : Bytes → Bytes) (seed : Bytes) (hl : Nat) (hpos : 0 < hl)
+    (hh : ∀ m, (h m).length = hl) (a b c : Nat) :
+    (generateKeys h seed a b c).signing.length = a ∧ (generateKeys h seed a b c).encryption.length = b ∧
+    (generateKeys h seed a b c).iv.length = c := by
+  have hp := pSha_length h seed hl hpos hh (a + b + c)
+  rw [generateKeys_eq_spec h seed hl hpos hh a b c]
+  simp only [Spec.derive, List.length_take, List.length_drop, hp]
+  omega
+
 end Opcua.Keys
